@@ -14,6 +14,7 @@ CHECKS = {
  "C08": ("Every implicit Go runtime check inside Step (index, slice, nil, type assertion, explicit panic) is a solver-decided fork from an arbitrary state; passes only if no failure path is feasible.", TRUST + "Backends of exactly 2^24 bytes make 'no failure' imply 'every access below 2^24'.", "§6 C08"),
  "C12": ("Step lemma and callback obligations per opcode over an arbitrary state; the real RunUntil loop run symbolically over short programs with symbolic target and budget.", TRUST + "RunUntil for programs beyond the unrolling bound rests on the Step lemma (cycles >= 1), argued not solver-checked.", "§6 C12"),
  "C19": ("Every instruction method and data blocks at capacities from ample down to 3 bytes short, refusal observed around the real call; dry-run twin compared after every call of short sequences.", TRUST + "Capacities 0..4 (thorough 0..6).", "§6 C19"),
+ "C15": ("Real WriteHexTo/WriteTextTo on short call sequences with symbolic operands, data and base; listings parsed arithmetically and compared with the harness' own record of what was issued.", TRUST + "Bounded: sequences of <= 2 (thorough 3) calls.", "§6 C15"),
  "C17": ("All colour/multiplicand/divisor values symbolic; per-channel closed form in 32 bits as reference; monotonicity queries decided by cvc5 --solve-bv-as-int where bit-blasting times out.", TRUST, "§6 C17"),
 }
 NA = {}
